@@ -8,7 +8,10 @@ export CARGO_NET_OFFLINE=true CARGO_TARGET_DIR=/tmp/wt_verify_target
 cd $wt || exit 9
 git checkout -q -- . ; git clean -fdq -- crates python
 name=seed_demo_$(basename "$sd" | tr -c 'A-Za-z0-9_\n' '_')
-if [ -f "$sd/demo.diff" ]; then
+if [ -f "$sd/demo.sh" ]; then
+  # a script that drives the real binary: exit 0 = the property holds on its input
+  run_demo() { sh "$sd/demo.sh" "$wt" "$CARGO_TARGET_DIR" > /tmp/demo_out.txt 2>&1; }
+elif [ -f "$sd/demo.diff" ]; then
   git apply "$sd/demo.diff" || { echo "VERDICT $sd: demo.diff does not apply"; exit 8; }
   # run the tests added by the demo patch: all tests of the crate whose name is new => run full crate tests, look for failures
   run_demo() { cargo test -p jet1090 --offline 2>&1 | tail -40 > /tmp/demo_out.txt; grep -q "test result: ok" /tmp/demo_out.txt && ! grep -q "FAILED\|panicked\|error\[" /tmp/demo_out.txt; }
@@ -21,7 +24,7 @@ if run_demo; then base=pass; else base=FAIL; fi
 git apply "$sd/patch.diff" || { echo "VERDICT $sd: patch.diff does not apply"; exit 7; }
 if run_demo; then with=PASS; else with=fail; fi
 # the repository's own suite with the change (demo files removed)
-if [ -f "$sd/demo.diff" ]; then git apply -R "$sd/demo.diff"; else rm -f crates/$crate/tests/$name.rs; fi
+if [ -f "$sd/demo.sh" ]; then :; elif [ -f "$sd/demo.diff" ]; then git apply -R "$sd/demo.diff"; else rm -f crates/$crate/tests/$name.rs; fi
 suite=$(cargo test --workspace --no-fail-fast --offline 2>&1 | grep -E "^test result" | awk '{p+=$4; f+=$6} END {print p" passed "f" failed"}')
 git checkout -q -- . ; git clean -fdq -- crates python
 echo "VERDICT $sd: demo on HEAD=$base, demo with change=$with, suite with change: $suite"
